@@ -24,6 +24,8 @@ def groups(rng, tier):
         line, note = case.split(" #")
         nt = note.split()
         trail, want = int(nt[0]), nt[1:]
+        if "ORACLE-FAIL" in out:
+            return out[out.index("ORACLE-FAIL"):][:200]
         o = pc.strip_tail(out).split()
         if not o or o[0] != "OK":
             return "a conforming encoding was not accepted: " + out[:200]
@@ -42,8 +44,15 @@ RULE = ("codec level: spec-out = rt/rtr/rtp cases (every codec module x tags x v
         "packed bodies, with trailing bytes) through merge / merge_repeated; generated-message level = pv/pbgen.run_c06: pilota's "
         "bytes reference-decode to the value, and every style of the reference encoder (shuffled records, packed / unpacked / mixed, "
         "defaults present or omitted, map entry value before key) decodes to the value, every scalar type in singular, optional, "
-        "repeated, map-key, map-value and oneof position; plus the finite lemma C06_module_table over the regenerated "
-        "ty_module / lower_ty tables")
+        "repeated, map-key, map-value and oneof position; group-holder-in = reference-built encodings of the hand-written "
+        "GroupHolder<M> (group records shuffled, the optional group split over two records, unknown fields in between) read "
+        "through encoding::group; every decode entry point (Message::decode / merge / decode_length_delimited / "
+        "merge_length_delimited, decode_length_delimiter, and at codec level every merge / merge_repeated, decode_key, "
+        "decode_varint) also over NON-CONTIGUOUS buffers holding the same bytes -- a multi-chunk Buf cut in two at every "
+        "position of short inputs (after every continuation byte and at pseudo-random positions of long ones), Buf::chain, "
+        "pieces of 1 / 2 / 3 / 7 bytes, a VecDeque<u8> that wraps around -- which must give the contiguous answer (value or "
+        "error class); plus the finite lemma C06_module_table over the regenerated ty_module / lower_ty tables and "
+        "C06_chunk_independent over the regenerated loop bound of decode_varint_slow")
 
 
 def run(chk, replay=None):
